@@ -325,6 +325,12 @@ def pattern_cases():
     ops = [["setinsync", 1], ["tx", 1, 0], ["tx", 2, 1], ["restart"], ["setinsync", 1], ["advance", 75000], ["delaycheck"], ["unconf"],
            ["restart"], ["setinsync", 1], ["delaycheck"], ["unconf"]]
     res.append((U, ops))
+    # the unconfirmed set is persisted while the tx is not yet safe, the tx becomes safe, a block confirms it and the
+    # set becomes EMPTY; then a clean restart: nothing of the old snapshot may come back
+    for first in ([["block", 1, 0, [], 1]], [["block", 1, 0, [3], 1]], [["restart"], ["setinsync", 1], ["block", 1, 0, [], 1]]):
+        ops = [["setinsync", 1], ["tx", 4, 0]] + first + [["advance", 75000], ["delaycheck"], ["block", 2, 1, [4], 1], ["unconf"],
+               ["restart"], ["setinsync", 1], ["unconf"], ["advance", 75000], ["delaycheck"], ["unconf"], ["gettx", 4]]
+        res.append((U, ops))
     res += reorg_patterns(U)
     return res
 
@@ -479,6 +485,11 @@ def make_spec(pid, title_rule):
         if rec.get("checker") != "flow":
             return True
         code = (rec.get("expected") or [0])[0]
+        if pid == "C11" and code in (101, 102, 103, 123):
+            # "still tracked with its safe / unsafe / trusted flags": a wrong safe report AFTER a restart is C11's
+            # (before any restart it is C05 / C07's)
+            ops, st = rec.get("ops", []), rec.get("step", 0)
+            return any(o[0] == "restart" for o in ops[:st])
         return code in mycodes or code >= 197
 
     return {
